@@ -1,11 +1,11 @@
 package kernel
 
 import (
-	"runtime"
 	"encoding/json"
 	"fmt"
 	"os"
 	"path/filepath"
+	"runtime"
 	"sort"
 	"time"
 )
